@@ -59,6 +59,21 @@ def generate(seed, tier="quick"):
                 op["fault"] = {"kind": rng.choice(["L_raises", "position_raises"]),
                                "at_call": rng.randrange(10_000)}
         ops = _retry_after_faults(ops)
+    # bulk updates of minerals whose histories have DIFFERENT lengths by now, some failing
+    # part-way (a later mineral's update raises)
+    if len(world["minerals"]) >= 2 and not big and rng.random() < 0.3:
+        T = 3.0
+        for _ in range(rng.randint(1, 3)):
+            order = list(range(len(world["minerals"])))
+            rng.shuffle(order)
+            order = order[: rng.randint(2, len(order))]
+            b = {"op": "update_all", "ms": order, "t0": T, "t1": T + rng.choice([0.05, 0.2, 0.5]),
+                 "flow": 0, "path": 0, "params": 0, "F_from": order[0]}
+            if rng.random() < 0.6:
+                b["fault"] = {"kind": rng.choice(["L_raises", "position_raises"]),
+                              "at_call": rng.randrange(10_000)}
+            ops.append(b)
+            T = b["t1"]
     # overlapped caller threads at the end of the history (each caller advances its own mineral)
     if len(world["minerals"]) >= 2 and not big and rng.random() < 0.15:
         last_t = {}
